@@ -43,6 +43,7 @@ type progGen struct {
 	haveThunkMaker bool
 	thunks         []string
 	files          map[string]string // simulated-disk files referenced by (source ...)
+	havePkg        bool
 	// swarm weights
 	w []int
 }
@@ -437,6 +438,27 @@ func (g *progGen) failingForm() string {
 		f := g.fns[g.r.Intn(len(g.fns))]
 		core = fmt.Sprintf("(%s%s)", f.name, strings.Repeat(" 1", f.arity+1)) // wrong arity
 	}
+	if g.r.Chance(0.2) {
+		// a redefinition of something that exists, failing while it is being compiled or built: the earlier
+		// definition must survive untouched
+		bad := g.r.Pick([]string{"(let)", "(for [1 2])", "(cond 1 2)", "(fn)", "(let [a] 1)"})
+		var cands []string
+		for _, f := range g.fns {
+			cands = append(cands, fmt.Sprintf("(func %s [a:int64] [n:int64] %s)", f.name, bad), fmt.Sprintf("(defn %s [a] %s)", f.name, bad), fmt.Sprintf("(method [p: (* int64)] %s [a:int64] [n:int64] %s)", f.name, bad))
+		}
+		for _, gl := range g.globals {
+			cands = append(cands, fmt.Sprintf("(def %s %s)", gl, bad), fmt.Sprintf("(set %s %s)", gl, bad), fmt.Sprintf("(var %s nosuchtype)", gl))
+		}
+		for _, h := range g.hashes {
+			cands = append(cands, fmt.Sprintf("(hset %s a: %s)", h, bad), fmt.Sprintf("(def %s (hash a: %s))", h, bad))
+		}
+		if g.havePkg {
+			cands = append(cands, "(set pk0.secret 5)", "{pk0.secret = 6}", "(def pk0 (package \"pk0\" { secret := 2; (defn Get [] (let)) }))", "(pk0.hidden)")
+		}
+		if len(cands) > 0 {
+			return g.r.Pick(cands)
+		}
+	}
 	if len(g.macros) > 0 && g.r.Chance(0.25) {
 		// a redefinition of an existing macro that fails to compile: the earlier definition must survive
 		m := g.macros[g.r.Intn(len(g.macros))]
@@ -487,7 +509,10 @@ func contains(xs []string, s string) bool {
 func (g *progGen) topForm() vmForm {
 	g.eff = false
 	g.locals = nil
-	w := []int{5, 4, 3, 2, 2, 1, 2, 1, 2, 1, 1, 2, 2}
+	w := []int{5, 4, 3, 2, 2, 1, 2, 1, 2, 1, 1, 2, 2, 1}
+	if g.havePkg {
+		w[13] = 0
+	}
 	if g.noFail {
 		w[6] = 0
 	}
@@ -628,6 +653,10 @@ func (g *progGen) topForm() vmForm {
 		th := g.thunks[g.r.Intn(len(g.thunks))]
 		text = g.r.Pick([]string{"(%s)", "(+ 1 (%s))", "(let [q (%s)] (+ q q))", "(for [(def i 0) (< i 2) (def i (+ i 1))] (%s))"})
 		text = fmt.Sprintf(text, th)
+	case 13:
+		// a package with a private and a public member, observed through its own accessor
+		g.havePkg = true
+		return vmForm{Text: "(def pk0 (package \"pk0\" { secret := 1; Open := (hash inner: 2); (defn Get [] secret); (defn hidden [] 3) }))"}
 	case 12:
 		// source of one or two files from the simulated disk; a failure inside a sourced file is a failure at depth
 		if g.files == nil {
@@ -699,6 +728,15 @@ var declForms = []string{
 	"(for [(def i 0) (< i 3) (def i (+ i 1))] (let [z i] (and (== z 1) (continue) 1)))",
 	"(for [(def i 0) (< i 3) (def i (+ i 1))] (let [z i] (or (< z 1) (break) 1)))",
 	"(defn lt%d [n] (let [m (lt2%d n)] m)) (defn lt2%d [n] (+ n 1)) (lt%d 3)",
+	// tail self-calls whose arguments are array literals / templates; body-less multi-return func; selector assignment in loops and arguments
+	"(defn ta%d [n acc] (cond (<= n 0) acc (ta%d (- n 1) [n 1]))) (ta%d 3 0)",
+	"(defn tq%d [n acc] (cond (<= n 0) acc (tq%d (- n 1) ^(a ~n)))) (tq%d 3 0)",
+	"(defn th%d [n acc] (cond (<= n 0) acc (th%d (- n 1) (hash a: n)))) (th%d 2 0)",
+	"(func fz%d [a:int64] [n:int64 m:int64]) (fz%d 1)",
+	"(func fy%d [a:int64] [n:int64 m:int64] (return a a)) (fy%d a:2)",
+	"(def sa%d [1 2 3]) (for [(def i 0) (< i 2) (def i (+ i 1))] { sa%d[i] = 9 }) (aget sa%d 0)",
+	"(def sb%d [1 2 3]) (+ 1 { sb%d[0] = 5 })",
+	"(def sc%d (hash a: 1)) (for [(def i 0) (< i 2) (def i (+ i 1))] { sc%d.a = i }) (str { sc%d.a = 7 })",
 	// return from nested scopes inside a typed func, called positionally and by name
 	"(func fr%d [a:int64] [n:int64] (let [b a] (for [(def i 0) (< i 3) (def i (+ i 1))] (let [c i] (cond (> (+ b c) 1) (return (+ b c)) 0)))) (return 0)) (fr%d 1) (fr%d a:0) (+ 1 (fr%d 5))",
 	"(func fq%d [a:int64 b:int64] [n:int64 m:int64] (newScope (cond (> a b) (return a b) 0)) (return b a)) (fq%d 2 1) (fq%d a:1 b:2)",
